@@ -911,7 +911,20 @@ impl Worterbuch {
         pattern: RequestPattern,
         client_id: ClientId,
     ) -> WorterbuchResult<KeyValuePairs> {
-        self.internal_pdelete(pattern, false, client_id).await
+        // wildcards of ordinary clients (and of their grave goods) must not reach the server's $SYS keys
+        let protect_sys = client_id != INTERNAL_CLIENT_ID;
+        self.internal_pdelete(pattern, false, client_id, protect_sys)
+            .await
+    }
+
+    /// A pdelete that the leader forwarded on behalf of one of its clients: it is applied with the
+    /// same `$SYS` protection the leader applied, so both end up with the same keys.
+    pub(crate) async fn pdelete_replicated(
+        &mut self,
+        pattern: RequestPattern,
+    ) -> WorterbuchResult<KeyValuePairs> {
+        self.internal_pdelete(pattern, true, INTERNAL_CLIENT_ID, true)
+            .await
     }
 
     async fn internal_pdelete(
@@ -919,6 +932,7 @@ impl Worterbuch {
         pattern: RequestPattern,
         skip_read_only_check: bool,
         client_id: ClientId,
+        protect_sys: bool,
     ) -> Result<Vec<worterbuch_common::KeyValuePair>, WorterbuchError> {
         if !skip_read_only_check {
             check_for_read_only_key(&pattern, client_id)?;
@@ -926,7 +940,7 @@ impl Worterbuch {
 
         let path: Vec<KeySegment> = KeySegment::parse(&pattern);
 
-        let (deleted, ls_subscribers) = self.store.delete_matches(&path)?;
+        let (deleted, ls_subscribers) = self.store.delete_matches_protected(&path, protect_sys)?;
 
         for kvp in &deleted {
             self.persistent_storage
